@@ -81,7 +81,8 @@ P = {
        "list, CIGAR and gene view: depth at every position = number of eligible spanning reads (M/=/X/D once, S/I consume no reference), substitution "
        "and reference counts inside the RefSeq-mapped part, complete catalogued multi-substitution counted once at its first position (and its component and later-reference cells as sums over reads), ineligible "
        "reads contribute nothing, qualities kept (binned), result independent of read order, insertions keyed at the next base; the locus test and fetch window of the loader are regenerated from "
-       "sam.py and proved equal to the model's (C06_tie_in_region, C06_tie_window). " + TIE +
+       "sam.py and proved equal to the model's (C06_tie_in_region, C06_tie_window); sam._in_region in full (contig named exactly prefix + chr, an end "
+       "reported, closed intervals meet: C06_in_region_named_iff, longer contig names never pass) and common.chr_prefix, both with direct correspondence. " + TIE +
        "Reads are generated (all CIGAR ops, clips, indels, MNPs, qualities, flags, positions at region borders), written to real BAM files with "
        "pysam and loaded through Sample; table, phases and per-read observations are compared with the model, and the pileup predicate is recomputed "
        "from the reads alone.",
@@ -148,7 +149,8 @@ P = {
   text="PARTIAL proof + observation. Proved over Frame.v: an operation whose transcription passes the ownership analysis writes no pre-existing "
        "location; all transcribed public operations pass (the old in-place accessor is refuted by witness); results as sets are independent of "
        "input listing order; minor-stage candidate independence under the per-structure filter when the pool adds nothing (the pooled variant list "
-       "is refuted by witness: open finding, by design). Tie by translation: harness/gen_frame.py abstractly interprets the Python AST of 21 "
+       "is refuted by witness: open finding, by design); every printed name of a gene copy is independent of the order in which its added / "
+       "missing variants are held (C14_names_order_free: hash-seed independence of the name strings). Tie by translation: harness/gen_frame.py abstractly interprets the Python AST of 21 "
        "operations (accessors, writers, stage functions and model builders, evidence filters, Coverage/CNSolution construction, "
        "Sample._make_coverage, genotype()) into aliasing programs (gen/Frame_here.v) on every run, and C14_tie_ops_here_frame proves that every one "
        "of them writes only to containers it created itself, so no container of the database or of the evidence changes (a code change that writes "
